@@ -96,7 +96,9 @@ def fmtOutcome : Default.Outcome → String
 def defaultsStep (_ : Unit) (line : String) : Unit × String :=
   match line.trimAscii.toString.splitOn " " with
   | ["emu", n, ctx] =>
-    match parseInt? n, (match ctx with | "normal" => some Default.Ctx.normal | "handler" => some .inHandler
+    -- "pending" = another signal is blocked and pending meanwhile: it does not matter to the outcome
+    match parseInt? n, (match ctx with | "normal" => some Default.Ctx.normal | "pending" => some Default.Ctx.normal
+                                       | "handler" => some .inHandler
                                        | "cond" => some .inHandler | _ => none) with
     | some n, some c =>
       -- `register_conditional_default` refuses signals without a name before registering
@@ -719,7 +721,7 @@ def piStep (d : PiDrv) (line : String) : PiDrv × String :=
   | ["---"] => ({}, "exit continues\n---")
   | ["mk", k, nb, full, cap] =>
     let c := cap.toNat?.getD 0
-    let kind := match k with | "pipe" => Pipe.Kind.pipe | "stream" => .stream | _ => .dgram
+    let kind := match k with | "pipe" => Pipe.Kind.pipe | "stream" => .stream | "opath" => .other | _ => .dgram
     let f := if full == "1" then c else 0
     ({ fd := { kind := kind, nonblock := nb == "1", fill := f, cap := c }, method := none, closed := false },
      s!"made cap={c} fill={f}")
@@ -732,6 +734,11 @@ def piStep (d : PiDrv) (line : String) : PiDrv × String :=
       let probeLine := s!"  sys send W len=0 dontwait = {if pr == .zero then "0" else "-1"}"
       let flagLines := if m == .write then "\n  sys fcntl W getfl = 0\n  sys fcntl W setfl nonblock=1 = 0" else ""
       let r := Registry.register regEnv Registry.State.init sig 1
+      if m == .write && !Pipe.setFlagsOk d.fd then
+        -- `set_flags()?` fails: rejected before the registry is asked; the owning WakeFd is dropped
+        ({ d with fd := Pipe.close d.fd, closed := true },
+         "err\n" ++ probeLine ++ "\n  sys fcntl W getfl = 0\n  sys fcntl W setfl nonblock=1 = -1\n  sys close W = 0")
+      else
       match r.2 with
       | .id _ _ => ({ d with fd := fd', method := some m, taken := true }, "ok\n" ++ probeLine ++ flagLines)
       | .panic => ({ d with fd := Pipe.close fd', closed := true }, "panic\n" ++ probeLine ++ flagLines ++ "\n  sys close W = 0")
